@@ -443,7 +443,7 @@ Contract(
         ("configs_untouched", lambda c: config_unchanged(c, c.old(c.a.self, "json_config")), ("C13",)),
     ],
     modifies=[Ghost("call_log"), Ghost("env_calls"), Ghost("env_kind"), Ghost("env_val"), Ghost("bind_err"),
-              Ghost("pool_accepted"), Ghost("uuid_ctr"), Ghost("xlate_log")] +
+              Ghost("pool_accepted"), Ghost("uuid_ctr"), Ghost("xlate_log"), Ghost("x_kind"), Ghost("x_val")] +
              [Fresh(f) for f in ("faultCode", "faultString", "rpcid", "config", "data", "id", "version") + _CFG_FIELDS] +
              [Fresh(f) for f in ("_logger", "_done_event", "_FutureResult__callback", "_FutureResult__extra")],
     props=("C02", "C03", "C04", "C05", "C13"),
@@ -543,7 +543,7 @@ Contract(
     ],
     loops={0: LoopSpec(_batch_inv, "batch")},
     modifies=[Ghost("call_log"), Ghost("env_calls"), Ghost("env_kind"), Ghost("env_val"), Ghost("bind_err"),
-              Ghost("pool_accepted"), Ghost("uuid_ctr"), Ghost("xlate_log")] +
+              Ghost("pool_accepted"), Ghost("uuid_ctr"), Ghost("xlate_log"), Ghost("x_kind"), Ghost("x_val")] +
              [Fresh(f) for f in ("faultCode", "faultString", "rpcid", "config", "data", "id", "version", "args") + _CFG_FIELDS] +
              [Fresh(f) for f in ("_logger", "_done_event", "_FutureResult__callback", "_FutureResult__extra")],
     props=("C02", "C03", "C04", "C05", "C13"),
@@ -620,8 +620,8 @@ Contract(
         ("configs_untouched", lambda c: config_unchanged(c, c.old(c.a.self, "json_config")), ("C13",)),
     ],
     modifies=[Ghost("call_log"), Ghost("env_calls"), Ghost("env_kind"), Ghost("env_val"), Ghost("bind_err"),
-              Ghost("pool_accepted"), Ghost("uuid_ctr"), Ghost("xlate_log"), Ghost("last_dumped"), Ghost("imports"),
-              Ghost("constructs")] +
+              Ghost("pool_accepted"), Ghost("uuid_ctr"), Ghost("xlate_log"), Ghost("x_kind"), Ghost("x_val"), Ghost("last_dumped"), Ghost("imports"),
+              Ghost("constructs"), Ghost("checked_name")] +
              [Fresh(f) for f in ("faultCode", "faultString", "rpcid", "config", "data", "id", "version", "args") + _CFG_FIELDS] +
              [Fresh(f) for f in ("_logger", "_done_event", "_FutureResult__callback", "_FutureResult__extra")],
     props=("C02", "C03", "C05", "C08", "C13"),
